@@ -26,6 +26,7 @@ func NewChannelStatsWatcher(statser Statser, channelName string, tags gostatsd.T
 	return &ChannelStatsWatcher{
 		statser:        statser.WithTags(tags.Concat(gostatsd.Tags{"channel:" + channelName})),
 		capacity:       capacity,
+		min:            capacity, // like emit leaves it: the first report's minimum is that of the samples, not 0
 		lenFunc:        lenFunc,
 		sampleInterval: sampleInterval,
 	}
